@@ -83,54 +83,51 @@ def run(ctx):
 
     # ------------------------------------------------------------------ R2 dropped <=> closed or readable
     R2 = ctx.rule("C03-R2", "dropped means: socket gone, or readable right now (unsolicited bytes or EOF) - decision table over is_connection_dropped and HTTPConnection.is_connected, with a zero-timeout (non-blocking) probe", "E5")
+    from ..rows import GenRule, effect_rows, helper_closure
+    from ..terms import T, destruct
     fd = m.func("urllib3.util.connection.is_connection_dropped")
-    rets = [r for r in astq.walk_fn(fd.node) if isinstance(r, ast.Return)]
     p0 = fd.params()[0]
-    ok = len(rets) == 1 and isinstance(rets[0].value, ast.UnaryOp) and isinstance(rets[0].value.op, ast.Not) \
-        and astq.text(rets[0].value.operand) == f"{p0}.is_connected"
-    ctx.ob(R2, fd.qual, "is_connection_dropped(conn) == not conn.is_connected", ok, astq.text(rets[0]) if rets else "no return", node=fd.node)
+    ISC = f"p:{p0}.is_connected"
+    rows_d = [r for r in effect_rows(ctx, fd, GenRule(ctx, fd.module)) if r.returns]
+    ctx.sites(R2, len(rows_d), 2, "rows of is_connection_dropped")
+    for r in rows_d:
+        t_ = r.truth(ISC)
+        val = r.o.st.view(r.o.val) if r.o.kind == "return" else None
+        v = (val.val if val.kind == "const" else val.truth) if val is not None else None
+        if v is None and r.ret == T("not", ISC):
+            v, t_ = True, False  # the negation itself is returned
+        ok = t_ is not None and v is not None and bool(v) == (not t_)
+        ctx.ob(R2, fd.qual, f"row is_connected={t_} -> dropped={v}", ok, "" if ok else "is_connection_dropped(conn) must be `not conn.is_connected`", witness=r.witness(), node=fd.node)
     fc = m.method(f"{CN}.HTTPConnection", "is_connected")
     if not any("property" in d for d in fc.decorators):
         raise AnalysisError("is_connected is no longer a property")
-
-    class ConnRule(BaseRule):
-        def __init__(self):
-            self.timeouts = []
-
-        def call(self, it, st, node, recv, pos, kw):
-            t = ast.unparse(node.func)
-            if t == "wait_for_read":
-                to = kw.get("timeout") or (pos[1] if len(pos) > 1 else None)
-                self.timeouts.append((to, node))
-                sk = pos[0] if pos else None
-                s = st.copy()
-                s.ts["waited_on"] = ast.unparse(node.args[0]) if node.args else "?"
-                return [Out("normal", s, AV("unk", sym="readable"))]
-            return None
-
-    rule = ConnRule()
-    outs, it = run_function(m, fc, rule, f"{CN}.HTTPConnection", seeds={("self", "sock"): AV("unk", sym="sock")}, record_decisions=True)
-    rows = set()
-    for o in outs:
-        if o.kind != "return":
-            continue
-        sock_none = o.st.facts.get("sock", (None, None))[1]
-        readable = o.st.facts.get("readable", (None, None))[0]
-        v = o.st.view(o.val)
-        val = v.val if v.kind == "const" else None
-        rows.add((sock_none, readable, val))
-    want = {(True, None, False), (False, True, False), (False, False, True)}
-    ctx.sites(R2, len(rows), 3, "rows of is_connected")
-    for r in sorted(rows, key=str):
-        ctx.ob(R2, fc.qual, f"row sock-is-None={r[0]} readable={r[1]} -> is_connected={r[2]}", r in want,
-               "" if r in want else "a closed or readable (EOF / stray bytes pending) connection would be reported alive", node=fc.node)
-    for r in sorted(want - rows, key=str):
-        ctx.ob(R2, fc.qual, f"row sock-is-None={r[0]} readable={r[1]} -> is_connected={r[2]} present", False, "expected row missing from the decision table", node=fc.node)
-    ctx.sites(R2, len(rule.timeouts), 1, "wait_for_read probe")
-    for to, node in rule.timeouts:
-        ok = to is not None and to.kind == "const" and to.val in (0, 0.0) and not isinstance(to.val, bool)
-        ctx.ob(R2, fc.qual, "probe uses a zero timeout (never blocks, never waits for data)", ok, f"timeout={to.val if to is not None else 'missing'}", node=node)
-        ctx.ob(R2, fc.qual, "probe waits on this connection's socket", astq.text(node.args[0]) == "self.sock" if node.args else False, node=node)
+    rows_c = [r for r in effect_rows(ctx, fc, GenRule(ctx, fc.module), f"{CN}.HTTPConnection") if r.returns]
+    ctx.sites(R2, len(rows_c), 3, "rows of is_connected")
+    nprobe = 0
+    table = set()
+    for r in rows_c:
+        probes = [e_ for e_ in r.events("call") if e_[1] == "wait_for_read"]
+        sock_none = r.is_none("self.sock")
+        readable = None
+        for e_ in probes:
+            nprobe += 1
+            args = [a_ for a_ in e_[2:] if isinstance(a_, str)]
+            to = [a_.split("=", 1)[1] for a_ in args if a_.startswith("timeout=")] or args[1:2]
+            okt = bool(to) and destruct(to[0])[0] == "const" and destruct(to[0])[1] in (0, 0.0) and not isinstance(destruct(to[0])[1], bool)
+            ctx.ob(R2, fc.qual, "probe uses a zero timeout (never blocks, never waits for data)", okt, f"timeout={to[0] if to else 'missing'}", witness=r.witness(), node=fc.node)
+            ctx.ob(R2, fc.qual, "probe waits on this connection's socket", args[:1] == ["self.sock"], f"waits on {args[:1]}", witness=r.witness(), node=fc.node)
+            readable = r.truth(T("wait_for_read", *args))
+        val = r.o.st.view(r.o.val) if r.o.kind == "return" else None
+        v = (val.val if val.kind == "const" else val.truth) if val is not None else None
+        if sock_none is None and r.truth("self.sock") is False:
+            sock_none = True  # `if not self.sock` form
+        table.add((sock_none, readable, v))
+        want_v = (sock_none is False) and (readable is False)
+        decided = sock_none is True or (sock_none is False and readable is not None)
+        ok = decided and v is not None and bool(v) == want_v
+        ctx.ob(R2, fc.qual, f"row sock-is-None={sock_none} readable={readable} -> is_connected={v}", ok,
+               "" if ok else "a closed or readable (EOF / stray bytes pending) connection would be reported alive", witness=r.witness(), node=fc.node)
+    ctx.sites(R2, nprobe, 1, "wait_for_read probes on rows")
 
     # ------------------------------------------------------------------ R3 = C01-R1d shared
     before = len(ctx.obs)
@@ -171,14 +168,33 @@ def run(ctx):
             t = astq.enclosing(c, ast.Try)
             ok = ok and t is not None and astq.in_body_of(c, t, "finalbody")
         ctx.ob(R4, f.qual, f"`{astq.text(c)}`", ok, "" if ok else "unexpected caller of _put_conn", node=c)
-    rc = [(f, c) for f, c in astq.func_callers(m, "release_conn") if "emscripten" not in f.module and f.module.startswith("urllib3")]
-    ctx.sites(R4, len(rc), 1, "internal release_conn call sites")
-    for f, c in rc:
-        g = astq.enclosing(c, ast.If)
-        gt = astq.text(g.test) if g is not None else ""
-        ok = "isclosed()" in gt and "_original_response" in gt and astq.in_body_of(c, g, "body")
-        ctx.ob(R4, f.qual, f"release_conn() guarded by `{gt[:70]}`", ok,
-               "" if ok else "the connection is handed back while the stdlib response may still have unread bytes on it", node=c)
+    # internal hand-backs: every path of a body read (error catcher inlined, release_conn inlined) that gives the connection back
+    # has the stdlib response closed / nothing left, or closed the connection first
+    from .c01_more import RespRule as _RR, _resp_seeds as _rs
+    from ..events import evs as _evs
+    rr = m.method(f"{RS}.HTTPResponse", "_raw_read")
+    seeds4 = _rs()
+    seeds4[("self", "_connection")] = AV("obj", "conn", truth=True, none=False)
+    seeds4[("self", "_pool")] = AV("obj", "pool", truth=True, none=False)
+    seeds4[("self", "_original_response")] = AV("obj", "orig", truth=True, none=False)
+    roots4 = [exc("builtins.OSError"), exc("http.client.HTTPException"), BASE_TOP]
+    outs4, it4 = run_function(m, rr, _RR(fp_raises=roots4), f"{RS}.HTTPResponse", inline=set(helper_closure(m, [m.method(f"{RS}.HTTPResponse", "release_conn")])), seeds=seeds4)
+    ctx.states += it4.budget.steps
+    gives4 = [o for o in outs4 if "put" in _evs(o)]
+    ctx.sites(R4, len(gives4), 2, "paths of a body read that hand the connection back")
+    seen4 = set()
+    for o in gives4:
+        seq = _evs(o)
+        closed_first = "conn_close" in seq and seq.index("conn_close") < seq.index("put")
+        exhausted = o.st.facts.get("fp-exhausted", (None, None))[0] is True or bool(o.st.ts.get("fp_closed"))
+        nothing_left = o.st.ts.get(("cmp", "field:self.length_remaining", "==", "0")) is True
+        k = (closed_first, exhausted, nothing_left, bool(o.st.ts.get("fault")))
+        if k in seen4:
+            continue
+        seen4.add(k)
+        ok = closed_first or exhausted or nothing_left
+        ctx.ob(R4, rr.qual, f"hand-back during a body read: closed-first={closed_first} response-closed={exhausted} nothing-left={nothing_left} after-fault={k[3]}", ok,
+               "" if ok else "the connection is handed back while the stdlib response may still have unread bytes on it", witness=o.st.witness(), node=rr.node)
 
     # ------------------------------------------------------------------ R5 protocol-state errors take the discard path
     R5 = ctx.rule("C03-R5", "http.client's protocol-state errors (ResponseNotReady, CannotSendRequest, BadStatusLine, RemoteDisconnected, IncompleteRead, ...) are subclasses of a root urlopen's discard handler catches", "E1 lattice")
@@ -211,40 +227,27 @@ def run(ctx):
     R6 = ctx.rule("C03-R6", "responses that carry no body (HEAD, 1xx, 204, 304) get length 0, so nothing on the connection is mistaken for their body", "E5 on _init_length")
     fi = m.method(f"{RS}.HTTPResponse", "_init_length")
 
-    class LenRule(BaseRule):
-        def call(self, it, st, node, recv, pos, kw):
-            t = ast.unparse(node.func)
-            if t == "self.headers.get":
-                return [Out("normal", st, AV("unk", sym="content_length"))]
-            if t == "int":
-                return [Out("normal", st, AV("unk", sym="int:" + ast.unparse(node.args[0]))), Out("raise", st.copy(), exc("builtins.ValueError"))]
-            if t in ("log.warning", "content_length.split", "lengths.pop", "len"):
-                return [Out("normal", st, AV("unk", sym="v:" + t))]
-            return None
-
-        def comprehension(self, it, st, node):
-            return [(st, AV("unk", sym="lengths", none=False))], [Out("raise", st.copy(), exc("builtins.ValueError"))]
-
-    outs, it = run_function(m, fi, LenRule(), f"{RS}.HTTPResponse", seeds={("self", "chunked"): AV("unk", sym="chunked"), ("self", "status"): AV("unk", sym="status")}, record_decisions=True)
-    rows = 0
-    atoms_seen = set()
-    for o in outs:
-        if o.kind != "return":
-            continue
-        dec = dict(o.st.ts.get("dec", ()))
-        bodyless = [a for a, b in dec.items() if b and ("204" in a or "100 <=" in a or "HEAD" in a)]
-        atoms_seen |= {a for a in dec if ("204" in a or "100 <=" in a or "HEAD" in a)}
-        if not bodyless:
-            continue
-        rows += 1
-        v = o.st.view(o.val)
-        ok = v.kind == "const" and v.val == 0 and not isinstance(v.val, bool)
-        ctx.ob(R6, fi.qual, f"row {bodyless[0]} -> length {v.val if v.kind == 'const' else '?'}", ok,
-               "" if ok else "a body-less response keeps a non-zero expected length: bytes of the next response would be read as its body", witness=o.st.witness(), node=fi.node)
-    ctx.sites(R6, rows, 3, "body-less rows of _init_length")
-    for frag, what in (("204", "204"), ("304", "304"), ("100 <=", "1xx"), ("HEAD", "HEAD")):
-        ok = any(frag in a for a in atoms_seen)
-        ctx.ob(R6, fi.qual, f"{what} is tested", ok, "" if ok else f"{what} responses are no longer treated as body-less")
+    from ..rows import consistent
+    rows6 = [r for r in effect_rows(ctx, fi, GenRule(ctx, fi.module), f"{RS}.HTTPResponse", budget=600000) if r.returns]
+    n6 = 0
+    cases = [(s_, mth) for s_ in (100, 101, 150, 199, 204, 304) for mth in ("GET", "HEAD")] + [(200, "HEAD"), (404, "HEAD"), (0, "HEAD")]
+    for s_, mth in cases:
+        assign = {"int(self.status)": s_, "self.status": s_, "p:request_method": mth, "upper(p:request_method)": mth}
+        hit = []
+        for r in rows6:
+            ok_, dec_ = consistent(r, assign)
+            if ok_ and dec_:
+                hit.append(r)
+        n6 += len(hit)
+        bad = [r for r in hit if r.ret != "0"]
+        ctx.ob(R6, fi.qual, f"status {s_}, method {mth}: every row that reaches the body-less test returns length 0 ({len(hit)} rows)", bool(hit) and not bad,
+               "" if hit and not bad else (f"returns {bad[0].ret[:60]}: a body-less response keeps a non-zero expected length: bytes of the next response would be read as its body" if bad else "no row decides this case"),
+               witness=bad[0].witness() if bad else None, node=fi.node)
+    ctx.sites(R6, n6, 10, "body-less rows of _init_length")
+    # non-vacuity of the evaluation: an ordinary response keeps its length
+    assign = {"int(self.status)": 200, "self.status": 200, "p:request_method": "GET", "upper(p:request_method)": "GET"}
+    plain = [r for r in rows6 if consistent(r, assign) == (True, consistent(r, assign)[1]) and consistent(r, assign)[1] and r.ret not in ("0", "None")]
+    ctx.ob(R6, fi.qual, "a 200 response to GET keeps its Content-Length", bool(plain), "" if plain else "no row returns the parsed length for an ordinary response", node=fi.node)
 
     # ------------------------------------------------------------------ R7 response-side: an unclean body read never recycles the connection (shared with C01)
     R7 = ctx.rule("C03-R7", "a connection whose response body was not read cleanly to its end never goes back to the pool alive (shared with C01): every stdlib read happens inside the error catcher (C01-R5) and every unclean exit of the catcher - transport error, interrupt, or a consumer abandoning a chunked stream half-way (GeneratorExit) - closes the connection before the slot is returned (C01-R6): otherwise the unread rest of the body answers the next request", "E4 (shared with C01)")
